@@ -228,7 +228,8 @@ impl C14 {
                                 5 => {
                                     // ends at the depth limit long before the time budget: its timer thread stays
                                     // asleep and wakes up during whatever is searched next
-                                    let mt = [300u64, 800, 1500][it.b as usize % 3];
+                                    // (the long ones: whatever still waits for that deadline must not hold up the next go)
+                                    let mt = [300u64, 800, 1500, 60_000, 3_600_000][it.b as usize % 5];
                                     (format!("go depth {} movetime {}", 1 + it.b % 3, mt), Searching::Depth)
                                 }
                                 3 => {
@@ -565,7 +566,7 @@ impl Prop for C14 {
     }
 
     fn rule(&self) -> String {
-        "Cases (model-based): 3-16 GUI intents over {isready, uci, show, position, go depth|movetime|depth+movetime|clock|infinite, ucinewgame, stop, wait} interpreted by a GUI state machine (no game / game set / searching) so that every expectation is unambiguous, each preceded by a generated delay of 0/1/5/20/100 ms, together with a generated delay 0/20/100 ms for each of nine schedule points in command_go and the search-thread epilogue (before_flag_raise, after_flag_raise, timer_wakeup, before_search_spawn, search_thread_start, after_search_return, after_flag_clear, after_game_drop, after_bestmove_print). Run against the real binary built with the hooks. History invariants: exactly one bestmove per accepted go (never `none` here), each within its deadline (depth: grace; timed: budget + hook delays + grace; infinite: only after stop - the curated positions have no forced mate or single reply, so an infinite search that announces a move by itself, or a `go movetime T` answered well before T, is a violation: that is how a stale timer of an earlier `go depth d movetime T` shows), isready answered while idle and while searching, show/position/go refused while an infinite search runs, ucinewgame while searching stops the search (its bestmove is there before the next readyok), quit while searching exits with status 0, a position + go sent right after a bestmove line was read are honoured, an impatient GUI's early `position` + `go` sent 0-20 ms after a go with a small budget of its own (depth 1/3, movetime 0-20, exhausted clocks) - without waiting for the answer - is either refused with an error line or accepted, and after `stop` + `readyok` the number of bestmove lines equals the number of accepted go commands with no panic on stderr (one intent in five is such a pair), a go (of any kind) on a root without legal moves - one position command in four sets a stalemated or checkmated root - is answered at once with exactly one `bestmove none` line, no stray bestmove at the end, no panic on stderr, exit status 0 after quit. evaluations = commands issued. Non-trivial session: at least two searches and (a stretched schedule point or a command sent while searching); distinct by command script and delays.".into()
+        "Cases (model-based): 3-16 GUI intents over {isready, uci, show, position, go depth|movetime|depth+movetime (budgets 0.3 s to 1 h, ended by the depth limit long before)|clock|infinite, ucinewgame, stop, wait} interpreted by a GUI state machine (no game / game set / searching) so that every expectation is unambiguous, each preceded by a generated delay of 0/1/5/20/100 ms, together with a generated delay 0/20/100 ms for each of nine schedule points in command_go and the search-thread epilogue (before_flag_raise, after_flag_raise, timer_wakeup, before_search_spawn, search_thread_start, after_search_return, after_flag_clear, after_game_drop, after_bestmove_print). Run against the real binary built with the hooks. History invariants: exactly one bestmove per accepted go (never `none` here), each within its deadline (depth: grace; timed: budget + hook delays + grace; infinite: only after stop - the curated positions have no forced mate or single reply, so an infinite search that announces a move by itself, or a `go movetime T` answered well before T, is a violation: that is how a stale timer of an earlier `go depth d movetime T` shows), isready answered while idle and while searching, show/position/go refused while an infinite search runs, ucinewgame while searching stops the search (its bestmove is there before the next readyok), quit while searching exits with status 0, a position + go sent right after a bestmove line was read are honoured, an impatient GUI's early `position` + `go` sent 0-20 ms after a go with a small budget of its own (depth 1/3, movetime 0-20, exhausted clocks) - without waiting for the answer - is either refused with an error line or accepted, and after `stop` + `readyok` the number of bestmove lines equals the number of accepted go commands with no panic on stderr (one intent in five is such a pair), a go (of any kind) on a root without legal moves - one position command in four sets a stalemated or checkmated root - is answered at once with exactly one `bestmove none` line, no stray bestmove at the end, no panic on stderr, exit status 0 after quit. evaluations = commands issued. Non-trivial session: at least two searches and (a stretched schedule point or a command sent while searching); distinct by command script and delays.".into()
     }
 
     fn assumptions(&self) -> Vec<String> {
